@@ -77,6 +77,8 @@ def gen_cases(tier, seed):
         kind = rnd.choice(['model', 'model', 'point'])
         nload = rnd.randint(1, 8)
         loads = sorted(rnd.uniform(0.05, 0.7) * nm for _ in range(nload))
+        if rnd.random() < 0.3:
+            rnd.shuffle(loads)          # any loading points inside the common range, in any order
         cases.append(dict(method='iso', temps=ts, dH=dH, model=model, pu=pu, lu=lu, mu=mu, par=par, kind=kind, loads=loads,
                           default_grid=(kind == 'point' and rnd.random() < 0.3)))
     for _ in range(45 * scale):       # Whittaker
@@ -88,6 +90,12 @@ def gen_cases(tier, seed):
         t = rnd.uniform(0.4, 1.5)
         loads = [0.0] + sorted(rnd.uniform(0.01, 0.999) * nm for _ in range(rnd.randint(3, 10))) + [nm * (1 - 10 ** rnd.uniform(-9, -3))]
         kind = 'model' if rnd.random() < 0.85 else 'point'
+        # "at each loading": the list a user passes need not be ascending (half of the cases: descending or shuffled)
+        order = rnd.choice(['ascending', 'ascending', 'descending', 'shuffled'])
+        if order == 'descending':
+            loads = loads[::-1]
+        elif order == 'shuffled':
+            rnd.shuffle(loads)
         cases.append(dict(method='whittaker', ads=ads, T=T, model=model, nm=nm, K=K, t=t, loads=loads, kind=kind))
     for _ in range(40 * scale):       # initial point
         na = rnd.randint(1, 12); nd = rnd.choice([0, 0, rnd.randint(1, 8)])
